@@ -16,7 +16,8 @@ Local Open Scope Z_scope.
       (emap: Sem's Unmapped is the executor's ExecutorInvalidAddress, every other kind coincides).
       Premises: well-formed program (cfg_inv, wf_expr, wf_op, wf_names, guarded fans), typed state,
       det_at (guards mutually exclusive and exhaustive here -- or one of the error situations),
-      and the store does not reach 2^64 (top_at, see notes/C07.md). *)
+      and the memory range of the operation does not wrap past 2^64 (top_at; a range ending exactly
+      at 2^64 is covered). *)
 Theorem step_refines : forall ty sv lift p pl fi l f x,
   wf_prog_b ty sv p = true -> ploc_apply p pl = Ok (fi, l) -> program_function p fi = Some f ->
   typed_b ty (x_scal x) = true -> mem_ok_b (x_mem x) = true ->
